@@ -367,3 +367,43 @@ Proof.
   destruct hyps_satisfiable as (a & b & c & d & e & f).
   exact (grid_offset_roundtrip 3 5 2 48000 a b c d e f).
 Qed.
+
+(* ------------------------------------------------------------------------------------------------ *)
+(* C06_conversions_agree: the seconds <-> samples conversions of the queue (publishes fl(T0 + fl(s/fs)), reads
+   pause times and trial ends back with round(fl(fl(. - T0) * fs))) and of the extractor (round(fl(fl(t0 - pre) * fs)))
+   agree exactly, for every rate in [1, 2^40] (all reals, so all binary64 values), not only for listed rates. *)
+Theorem conversions_agree :
+  (forall (k : Z) (fs : R), (0 < k < 2^50)%Z -> 1 <= fs -> fs <= bpow radix2 40 ->
+     ZnearestE (RN (RN (IZR k / fs) * fs)) = k) /\
+  (forall x x' d : R, Rabs (x' - x) <= d -> (forall z : Z, Rabs (x - (IZR z + /2)) > d) -> ZnearestE x' = ZnearestE x) /\
+  (forall (j s m : Z) (fs : R),
+     (0 <= j)%Z -> (0 <= s)%Z -> (0 <= m)%Z -> (j + s + m < 2^45)%Z -> 1 <= fs -> fs <= bpow radix2 40 ->
+     let T0 := RN (IZR j / fs) in
+     let t0 := RN (T0 + RN (IZR s / fs)) in
+     let pre := RN (IZR m / fs) in
+     ZnearestE (RN (RN (t0 - pre) * fs)) = (j + s - m)%Z) /\
+  (forall (j s : Z) (fs : R), (0 <= j)%Z -> (0 <= s)%Z -> (j + s < 2^45)%Z -> 1 <= fs -> fs <= bpow radix2 40 ->
+     ZnearestE (RN (RN (RN (RN (IZR j / fs) + RN (IZR s / fs)) - 0) * fs)) = (j + s)%Z) /\
+  (forall (j s : Z) (fs pre : R),
+     (0 <= j)%Z -> (0 <= s)%Z -> (j + s < 2^45)%Z -> 1 <= fs -> fs <= bpow radix2 40 -> 0 <= pre -> pre * fs <= IZR (2^45) ->
+     let T0 := RN (IZR j / fs) in
+     let t0 := RN (T0 + RN (IZR s / fs)) in
+     let X := IZR (j + s) - pre * fs in
+     let d := (IZR (j + s) + pre * fs + 1) * bpow radix2 (-50) in
+     (forall z : Z, Rabs (X - (IZR z + /2)) > d) ->
+     ZnearestE (RN (RN (t0 - pre) * fs)) = ZnearestE X) /\
+  (forall (j s : Z) (fs : R), (0 <= j)%Z -> (0 <= s)%Z -> (j + s < 2^45)%Z -> 1 <= fs -> fs <= bpow radix2 40 ->
+     let T0 := RN (IZR j / fs) in
+     let t := RN (T0 + RN (IZR s / fs)) in
+     ZnearestE (RN (RN (t - T0) * fs)) = s) /\
+  (forall (j s len : Z) (fs : R),
+     (0 <= j)%Z -> (0 <= s)%Z -> (0 <= len)%Z -> (j + s + len < 2^45)%Z -> 1 <= fs -> fs <= bpow radix2 40 ->
+     let T0 := RN (IZR j / fs) in
+     let t0 := RN (T0 + RN (IZR s / fs)) in
+     let dur := RN (IZR len / fs) in
+     ZnearestE (RN (RN (RN (t0 + dur) - T0) * fs)) = (s + len)%Z).
+Proof.
+  split; [exact grid_roundtrip|]. split; [exact round_stable|]. split; [exact grid_offset_roundtrip|].
+  split; [exact grid_offset_roundtrip0|]. split; [exact grid_offset_stable|]. split; [exact grid_pause_roundtrip|].
+  exact grid_end_roundtrip.
+Qed.
